@@ -699,6 +699,12 @@ def _derived_ok(body, supplied, derived, a, op, b, dn):
         # on the open/closed half line S > lo: slope >= 0 and value at lo >= 0
         # (strict: either slope > 0 with value >= 0 at the excluded endpoint, or value > 0)
         ok = slope >= 0 and at_lo >= 0 and (not strict or slope > 0 or at_lo > 0)
+    # the derived value must also lie in its own documented domain (nothing re-validates it)
+    lo_d = DOMAIN_LO.get(derived[1])
+    if ok and want_fn == "min" and lo_d is not None and lo is not None:
+        # min(default, al*S + be) > lo_d for every S > lo  <=>  al >= 0 and al*lo + be >= lo_d
+        if not (al >= 0 and al * lo + be >= lo_d):
+            return False, f"`{norm(e)}` can fall to or below {lo_d}, the lower end of the documented domain of {derived[1]}, for an admissible {supplied[1]}"
     if ok:
         return True, f"{derived[1]} = {fn}(default, {norm(e)}) {need} {supplied[1]} on its domain"
     return False, f"`{norm(e)}` is not {need} {supplied[1]} for every admissible {supplied[1]}"
